@@ -13,7 +13,7 @@ import (
 // On every way to the blocking select of heightSub.Wait the count field was raised by one (or the
 // subscription was created with a count of one).
 func checkWaiterCounted(c *an.Ctx, id string) {
-	wait := c.P.Method("store", "heightSub", "Wait")
+	wait := waitBody(c)
 	if !c.Need(wait, id, "store.(*heightSub).Wait") {
 		return
 	}
